@@ -94,7 +94,17 @@ def plan(seed, subbatch):
                                                       allowed=("drop", "dup", "burst"))
     start = world.pick_start(cfg, base_s, tf_seconds(tf) if tf else None)
     tf_s = tf_seconds(tf) if tf else base_s
-    rows, fired = world.make_stream(sub_rng(seed, "exchange"), total, base_s, start, faults)
+    regimes = None
+    if cfg.random() < 0.15:
+        regimes = [cfg.choice(("zerovol", "zerovol", "stall0", "oneside_up"))]   # e.g. a feed without volume
+        if regimes[0] != "oneside_up" and kind == "indicator" and not sparse and cfg.random() < 0.6:
+            # the indicators whose code paths depend on volume
+            vcls = cfg.choice(("VWAP", "VWMA", "OBV"))
+            members = [{"cls": vcls, "params": ({} if vcls == "OBV" else {"period": cfg.randint(2, 12)}),
+                        "common": ({"timeframe": tf} if tf else {})}]
+    rows, fired = world.make_stream(sub_rng(seed, "exchange"), total, base_s, start, faults, regimes=regimes)
+    if regimes:
+        fired["whole_stream_" + regimes[0]] += 1
     # The probe sequence: the SAME relative price pattern (settling stretch + 8 measured candles) is
     # replayed at every rung, bucket aligned, so that data dependent early exits of look-back loops
     # behave identically at every rung and only the history length differs.
@@ -124,7 +134,8 @@ def plan(seed, subbatch):
         t0 = last_ts - last_ts % tf_s + 2 * tf_s          # bucket aligned start of the probe sequence
         base = max(last_close, 60 * tick)
         probe = [[t0 + (k + 1) * base_s, round(base + po * tick, 6), round(base + ph * tick, 6),
-                  round(base + pl * tick, 6), round(base + pc * tick, 6), pv]
+                  round(base + pl * tick, 6), round(base + pc * tick, 6),
+                  0 if regimes and regimes[0] in ("zerovol", "stall0") else pv]
                  for k, (po, ph, pl, pc, pv) in enumerate(pattern)]
         ops.append({"op": "append", "candles": probe[:settle_n // 2]})
         ops.append({"op": "append", "candles": probe[settle_n // 2:settle_n]})
